@@ -281,6 +281,7 @@ def run(prog, chk):
     stale_path_summaries(prog, chk, "C19.j")
     stem_extension_cut(prog, chk, "C19.k")
     read_all_table(prog, chk, "C19.l")
+    extension_cut_needs_dot(prog, chk, "C19.m")
 
 
 def copy_destination_flags(prog, chk, rid):
@@ -739,3 +740,96 @@ def read_all_table(prog, chk, rid):
                 "there is nothing left to read, which is not an error" % bad, evals=n_ev)
     else:
         chk.ok(rid, f, "readAll fails exactly when size() or read() fails, text cut to the bytes read", where, "%d outcome pairs evaluated" % n_ev, evals=n_ev)
+
+
+def extension_cut_needs_dot(prog, chk, rid):
+    """getBaseName(file, ext) / getStem(file, ext) with an extension given WITHOUT its dot cut `.ext` - one byte more than the extension.
+    That extra byte has to have been seen to be a dot: evaluated for an extension without a dot and every outcome of the tests the
+    lengths do not decide, a return that cuts length(ext) + 1 bytes lies behind a comparison of a byte of the name with '.'."""
+    import itertools
+    chk.rule(rid, "FIN/DOM: File::getBaseName(file, extension) evaluated for a dot-less extension over the outcomes of its undetermined tests: "
+                  "every return that cuts extension.length() + 1 bytes from the name has evaluated a test `name[..] == '.'` on the way; a "
+                  "return never cuts more than that", floor=1)
+    fs = [f for f in prog.functions.values() if f.name == "File::getBaseName" and f.blocks and len(f.params) == 2]
+    if not fs:
+        raise AnalysisBroken("File::getBaseName(file, extension) not found")
+    f = fs[0]
+    en = f.params[1]["n"]
+    ctor = [i for i, n in enumerate(f.nodes) if n["k"] in ("CXXConstructExpr", "CXXTemporaryObjectExpr") and (n.get("callee") or "").endswith("String::String") and
+            len([c_ for c_ in n["c"] if c_ >= 0]) == 2 and f.node_pos(i) is not None]
+    lens = [c for c in q.calls(f) if (f.nodes[c].get("callee") or "") == "String::length"]
+    if not ctor or not lens:
+        raise AnalysisBroken("File::getBaseName: result construction / length() calls not found")
+    NAME, EXT = 20, 3
+    bad = None
+    n_ev = 0
+    cuts_seen = set()
+    for combo in itertools.product((0, 1), repeat=5):
+        val = {}
+        for c in lens:
+            o = q.call_object(f, c)
+            val[fin.key(f, c)] = EXT if o is not None and q.no_casts(f.r(o)) == en else NAME
+        # the name has no separator (the scan loop ends at once), the extension starts with a letter
+        val.update({"*extensionPtr": 97, "extensionPtr[0]": 97})
+        seen_keys = []
+
+        def assume(k_, _c=combo, _s=seen_keys):
+            if k_ not in _s:
+                _s.append(k_)
+            ix = _s.index(k_)
+            return _c[ix] if ix < len(_c) else 0
+        got = {}
+
+        def trace(e, v_, _g=got):
+            if e in ctor:
+                a_ = [c_ for c_ in f.nodes[e]["c"] if c_ >= 0]
+                _g["len"] = fin.eval_expr(f, a_[1], v_)
+        # start behind the backward scan for the last separator: at the block that reads the extension's length, with the length of
+        # the last path component standing for whatever local holds it
+        ext_len_calls = [c for c in lens if q.call_object(f, c) is not None and q.no_casts(f.r(q.call_object(f, c))) == en]
+        if not ext_len_calls:
+            raise AnalysisBroken("File::getBaseName: extension.length() not found")
+        start_blk = f.node_pos(ext_len_calls[0])[0]
+        for d_ in [d for n_ in f.nodes if n_["k"] == "DeclStmt" for d in n_["decls"]]:
+            if re.search(r"unsigned long|usize", d_.get("t") or "") and d_.get("init") is not None and re.search(r"fileLen|length\(\)", f.r(d_["init"])) and \
+               en not in f.r(d_["init"]):
+                val[d_["n"]] = NAME
+        seen, end, fv = fin.walk_vals(f, start_blk, val, limit=400, assume=assume, trace=trace)
+        n_ev += 1
+        if "len" not in got or got["len"] is None:
+            continue
+        cut = NAME - got["len"]
+        cuts_seen.add(cut)
+        def on_name(e):
+            """a comparison with '.' whose other operand reads a byte through a pointer that does not come from the extension"""
+            sides = f.nodes[e]["c"]
+            vals_ = [fin.eval_expr(f, x_, {}) for x_ in sides]
+            if 46 not in vals_:
+                return False
+            other = sides[1] if vals_[0] == 46 else sides[0]
+            x_ = f.nodes[f.strip(other)]
+            while x_["k"] in ("ArraySubscriptExpr", "UnaryOperator", "ParenExpr", "CStyleCastExpr", "ImplicitCastExpr") and x_["c"]:
+                nx_ = f.strip(x_["c"][0])
+                x_ = f.nodes[nx_] if nx_ != x_["i"] else f.nodes[x_["c"][0]]
+            if x_["k"] != "DeclRefExpr":
+                return False
+            if x_["ref"]["n"] == en:
+                return False
+            ini_ = q.single_def(f, x_["ref"]["id"], q.local_defs(f)) if x_["ref"].get("dk") == "local" else None
+            return not (ini_ is not None and re.search(r"(?<![\w])%s(?![\w])" % re.escape(en), f.r(ini_)))
+        dot_tests = [e for e in seen if f.nodes[e]["k"] == "BinaryOperator" and f.nodes[e].get("op") in ("==", "!=") and on_name(e)]
+        if cut > EXT + 1 or cut < 0:
+            bad = "a return cuts %d bytes for an extension of %d" % (cut, EXT)
+            break
+        if cut == EXT + 1 and not dot_tests:
+            bad = "a return cuts the extension and one more byte (%d) without having compared that byte of the name with '.'" % cut
+            break
+    where = "%s:%s" % (f.file, f.line)
+    if bad:
+        chk.bad(rid, f, "extension-cut-without-dot-test", where,
+                "getBaseName(name, \"ext\"): %s - getBaseName(\"src/Makefile\", \"file\") answers \"Mak\"; stem and extension no longer "
+                "recompose the base name" % bad, evals=n_ev)
+    elif not cuts_seen:
+        raise AnalysisBroken("File::getBaseName: no evaluated path reached the construction of the result")
+    else:
+        chk.ok(rid, f, "cuts of %s byte(s) seen; the longer one only behind a dot test on the name" % sorted(cuts_seen), where, "%d outcome combinations evaluated" % n_ev, evals=n_ev)
